@@ -22,6 +22,43 @@ fn mutual<'a>() -> impl Parser<'a, &'a str, usize, Ex> {
     a
 }
 
+/// the same cycles with the self-reference taken through the wrappers a grammar usually applies to a recursive handle
+fn parens_boxed<'a>() -> impl Parser<'a, &'a str, usize, Ex> {
+    recursive(|p| p.boxed().delimited_by(just('('), just(')')).map(|d: usize| d + 1).or(just('x').to(0usize)))
+}
+
+fn parens_rc<'a>() -> impl Parser<'a, &'a str, usize, Ex> {
+    recursive(|p| {
+        std::rc::Rc::new(Box::new(p)).delimited_by(just('('), just(')')).map(|d: usize| d + 1).or(just('x').to(0usize))
+    })
+}
+
+fn mutual_boxed<'a>() -> impl Parser<'a, &'a str, usize, Ex> {
+    let mut a = Recursive::declare();
+    let mut b = Recursive::declare();
+    a.define(just('a').ignore_then(b.clone().boxed()).map(|d: usize| d + 1).or(just('x').to(0usize)));
+    b.define(just('b').ignore_then(a.clone().boxed()).map(|d: usize| d + 1).or(just('y').to(0usize)).boxed());
+    a.boxed()
+}
+
+/// one declared parser whose only self-reference is a boxed clone, itself used boxed
+fn declared_boxed<'a>() -> impl Parser<'a, &'a str, usize, Ex> {
+    let mut a = Recursive::declare();
+    a.define(a.clone().boxed().delimited_by(just('('), just(')')).map(|d: usize| d + 1).or(just('x').to(0usize)));
+    a.clone().boxed()
+}
+
+/// the calculator pattern: a Pratt parser whose atom is the parenthesised expression again
+fn pratt_parens<'a>() -> impl Parser<'a, &'a str, usize, Ex> {
+    recursive(|e| {
+        let atom = just('1').to(0usize).or(e.delimited_by(just('('), just(')')).map(|d: usize| d + 1));
+        atom.pratt((
+            prefix(3, just('-'), |_, r: usize, _| r + 1),
+            infix(left(1), just('+'), |l: usize, _, r: usize, _| l.max(r)),
+        ))
+    })
+}
+
 fn pratt_table<'a>() -> impl Parser<'a, &'a str, usize, Ex> {
     let atom = just('1').to(0usize);
     atom.pratt((
@@ -34,8 +71,9 @@ fn pratt_table<'a>() -> impl Parser<'a, &'a str, usize, Ex> {
 
 fn input_for(probe: &str, depth: usize) -> String {
     match probe {
-        "parens" => format!("{}x{}", "(".repeat(depth), ")".repeat(depth)),
-        "mutual" => {
+        "parens" | "parens_boxed" | "parens_rc" | "declared_boxed" => format!("{}x{}", "(".repeat(depth), ")".repeat(depth)),
+        "pratt_parens" => format!("{}1{}", "(".repeat(depth), ")".repeat(depth)),
+        "mutual" | "mutual_boxed" => {
             let mut s = String::with_capacity(depth + 1);
             for i in 0..depth {
                 s.push(if i % 2 == 0 { 'a' } else { 'b' });
@@ -75,6 +113,11 @@ pub fn main() {
             match p2.as_str() {
                 "parens" => run!(parens()),
                 "mutual" => run!(mutual()),
+                "parens_boxed" => run!(parens_boxed()),
+                "parens_rc" => run!(parens_rc()),
+                "mutual_boxed" => run!(mutual_boxed()),
+                "declared_boxed" => run!(declared_boxed()),
+                "pratt_parens" => run!(pratt_parens()),
                 "pratt_prefix" | "pratt_postfix" | "pratt_infixr" | "pratt_infixl" => run!(pratt_table()),
                 _ => "unknown-probe".to_string(),
             }
